@@ -3,7 +3,7 @@ from tools.extract import Unit, Rw
 from tools.krun import Harness
 
 PROPERTY = "C05"
-PRELUDE = ["../common/base.rs", "prelude.rs", "lists.rs", "trees.rs", "packs.rs"]
+PRELUDE = ["../common/base.rs", "prelude.rs", "lists.rs", "trees.rs", "packs.rs", "cache.rs"]
 CK = "crates/core/src/commands/check.rs"
 R_ERR = Rw("", "verr()", count=None, kind="err", why="RusticError construction (kind/message/context dropped)")
 R_MAPERR = Rw("", "", count=None, kind="maperr", why=".map_err(<error building closure>) -> .vmap_err()")
@@ -336,6 +336,25 @@ UNITS += [
                 ("loop_start", "1", "            proof { assert(c0 + (live_packs(be.index_files(), it.index@) + be.index_files()[it.index@].packs@) =~= (c0 + live_packs(be.index_files(), it.index@)) + be.index_files()[it.index@].packs@); }")],
          ),
 ]
+# ---- check_cache_files: the per-file comparison (closure given to rayon's for_each_with)
+UNITS += [
+    Unit(name="check_cache_file", file=CK, kind="block", within="fn check_cache_files(",
+         anchor="@closure:.for_each_with((cache, be, p), |(cache, be, p), (id, size)|",
+         block_sig="fn check_cache_file(cache: &VCacheR, be: &VReadBeR, p: &Progress, id: Id, size: u32, file_type: FileType, collector: &CheckResultsCollector)",
+         block_tail="",
+         functions=["commands::check::check_cache_files (per-file closure: cached copy against the backend's file)"],
+         rewrites=[R_DROP_E, R_DROP_W,
+                   Rw("data_cached != data", "vbytes_ne(&data_cached, &data)", why="PartialEq on bytes::Bytes -> stub comparing the byte sequences"),
+                   Rw(r"(?m)^\s*p\.inc\([^;]*\);\n", "\n", regex=True, count=None, why="progress reporting removed (UI only)")],
+         contract="""
+    ensures
+        // runs that reported NO error for this file: both reads worked, and a cached copy equals what the backend returns
+        /*@no_error_implies_cache_readable*/ CACHE_RES(file_type, id) is Some,
+        /*@no_error_implies_backend_readable*/ BE_RES(file_type, id) is Some,
+        /*@no_error_implies_cached_copy_equals_backend*/ CACHE_RES(file_type, id) matches Some(Some(c)) ==> BE_RES(file_type, id) == Some(c),
+"""),
+]
+
 KANI = []
 META = {"not_covered": [
     "completeness ('every damage is reported or harmless') and the link to restorability: whole-repository statements",
